@@ -46,6 +46,8 @@ def check(rep, ctx):
                    necessary_because="a batch cut inside the last header value, with a CRC that matches the prefix, is returned with a short value")
     R_G = rep.rule("C18-time", "record timestamps are decoded to the millisecond (T-gran)", floor=1,
                    necessary_because="base timestamp ...908 ms is read as ...:38.000; write_batch(read_batch(b)) != b")
+    R_A = rep.rule("C18-accepts", "no raising path of read_batch is decided by the record count alone for a well-formed count (>= 0)", floor=2,
+                   necessary_because="numRecords == 0 is a well-formed batch; max() over its records raises ValueError")
     R_W = rep.rule("C18-rewrite", "write_prepared_batch writes every field of a read batch back in the same layout", floor=13)
     file = ctx.sm.require("kio.records.readers").rel
     B = RA.batch_reader()
@@ -132,6 +134,44 @@ def check(rep, ctx):
                   line=fn.node.lineno, instance="outer")
         rep.check(R_C, B["repeat"] is not None and B["repeat"][1] == ("unpack", ">i", wire_of["count"], 0), construct=fn.ref,
                   stmt="for _ in range(num_records)", message="records are not read `count` times", file=file, line=fn.node.lineno, instance="count-loop")
+        # acceptance: the record count alone never makes a batch malformed (zero records is a well-formed batch)
+        from ..grammar import eval_int_term
+        cnt_c = ("unpack", ">i", cn0.term(wire_of["count"]), 0)
+
+        def count_only(t):
+            """Rewrite a condition on the record list / count into a condition on X = count, or None."""
+            if not isinstance(t, tuple) or not t:
+                return t
+            if t == cnt_c:
+                return ("X",)
+            if t[0] == "nonempty" and isinstance(t[1], tuple) and t[1][:1] in (("repeat",), ("tuple",)):
+                inner = t[1][1] if t[1][0] == "repeat" else (t[1][1][1] if isinstance(t[1][1], tuple) and t[1][1][:1] == ("repeat",) else None)
+                return ("gt", count_only(inner), ("k", 0)) if inner is not None else None
+            if t[0] == "len" and isinstance(t[1], tuple) and t[1][:1] == ("repeat",):
+                return ("max", count_only(t[1][1]), ("k", 0))
+            if t[0] == "k":
+                return t
+            if t[0] in ("eq", "ne", "lt", "le", "gt", "ge", "add", "sub", "not", "nonzero", "max", "min"):
+                args = [count_only(x) for x in t[1:]]
+                return None if any(a is None for a in args) else (t[0],) + tuple(args)
+            return None
+        n_acc = 0
+        for q in B["paths"]:
+            if q.outcome != "raise" or not q.facts:
+                continue
+            cq, fq = canon_facts(q)
+            t, pol = fq[-1][0], fq[-1][1]
+            c = count_only(t)
+            n_acc += 1
+            if c is None or not contains(c, ("X",)):
+                rep.check(R_A, True, construct=fn.ref, stmt=show_term(t)[:120], instance=f"raise|{n_acc}", file=file, line=fn.node.lineno)
+                continue
+            hit = next((v for v in (0, 1, 2, 1000, 2 ** 31 - 1) if (lambda r: r is not None and bool(r) == bool(pol))(eval_int_term(c, v))), None)
+            rep.check(R_A, hit is None, construct=fn.ref, stmt=f"raise when {show_term(c)} is {pol}",
+                      message=f"a batch is rejected ({getattr(q.value.cls, 'name', None) or q.value.cls.ref} at {q.value.attrs.get('__site__', '?')}) on a "
+                              f"condition of its record count alone, which holds for the well-formed count {hit}: a batch with {hit} record(s) "
+                              f"(what a broker serves after compaction removed every record, for 0) cannot be read",
+                      file=file, line=fn.node.lineno)
     # records ------------------------------------------------------------------------------------------------
     RR = RA.record_reader()
     rfn = RR["fn"]
@@ -327,5 +367,36 @@ def check(rep, ctx):
             rep.check(R_W, okk, construct=wfn.ref, stmt=f"{name}: {gf} <- {show_term(gv)[:80]}",
                       message=f"slot {name} is written as {gf} <- {show_term(gv)[:100]}, expected {fmt} <- {show_term(want)}",
                       file=wfile, line=wfn.node.lineno, instance=name)
+        # the records are written relative to the batch's own base offset / base timestamp (what the reader adds back)
+        loops = [e for e in wrets[0].effects if e[0] == "repeat" and e[1] == ("len", ("attr", batch.term, "records"))]
+        rep.check(R_W, len(loops) == 1, construct=wfn.ref, stmt="for record in batch.records", message="the records of the batch are not written "
+                  "once each", file=wfile, line=wfn.node.lineno, instance="loop")
+        if len(loops) == 1:
+            subs = set()
+
+            def walk(t):
+                if isinstance(t, tuple):
+                    if t[:1] == ("sub",) and len(t) == 3:
+                        subs.add(t)
+                    for x in t:
+                        walk(x)
+            for facts_, effs_, out_, val_ in loops[0][2]:
+                for x in effs_:
+                    if x[0] in ("wvarint", "write"):
+                        for a in x[2:]:
+                            try:
+                                walk(term_of(a))
+                            except Exception:  # noqa: BLE001 -- non-term payloads (dict summaries) carry no value terms
+                                pass
+            elem = ("elem", ("attr", batch.term, "records"))
+            for fld, base in (("offset", "base_offset"), ("timestamp", "base_timestamp")):
+                rel = [t for t in subs if contains(t[1], ("attr", elem, fld)) and not (t[2][0] == "k")]
+                want = ("attr", batch.term, base)
+                bad = [t for t in rel if t[2] != want]
+                rep.check(R_W, bool(rel) and not bad, construct=wfn.ref, stmt=f"record {fld} delta relative to {show_term(rel[0][2])[:80] if rel else '?'}",
+                          message=(f"record {fld} deltas are written relative to {show_term(bad[0][2])[:120]}, not to batch.{base}: the reader adds "
+                                   f"batch.{base} back, so a batch whose first record is not at the base (compacted) is not written back as read")
+                          if bad else f"no {fld} delta relative to a base found in the records loop",
+                          file=wfile, line=wfn.node.lineno, instance=f"delta|{fld}")
     rep.sample({"rule": "C18-truncation", "raw_reads": {k: sorted(v["uses"]) for k, v in seen.items()}})
     rep.trusted_base += ["crc32c.crc32c", "struct format table", "io.BytesIO(bytes) semantics: read(n) returns at most n bytes"]
